@@ -202,4 +202,16 @@ def gen_formatters():
     yield "EntitiesFormatters.lean", t
 
 
-ALL = [gen_entities, gen_formatters]
+def gen_source():
+    """the inputs of _populate_class_variables: sorted(html5.items()) and codepoint2name.items()"""
+    from html.entities import html5, codepoint2name
+    t = HEADER + "import BSModel.Model.Entities\nnamespace BS.Gen.C09\nopen BS.Entities\n"
+    t += "/-- sorted(html.entities.html5.items()) -/\n"
+    t += chunked_def_r("html5Items", "PStr × PStr", [f"({lean_nat_list(code(k))}, {lean_nat_list(code(v))})" for k, v in sorted(html5.items())])
+    t += "/-- html.entities.codepoint2name.items() -/\n"
+    t += chunked_def_r("codepoint2name", "Nat × PStr", [f"({k}, {lean_nat_list(code(v))})" for k, v in codepoint2name.items()])
+    t += "end BS.Gen.C09\n"
+    yield "EntitiesSource.lean", t
+
+
+ALL = [gen_entities, gen_formatters, gen_source]
